@@ -71,3 +71,29 @@ Example C16_example :
   run_cache 2 [1; 2; 1; 3; 4; 4; 1] =
   [(Some 8, 1, 0); (Some 15, 2, 0); (Some 8, 2, 0); (Some 22, 1, 1); (None, 1, 1); (None, 1, 1); (Some 8, 2, 1)].
 Proof. vm_compute. reflexivity. Qed.
+
+(* ---- replace(): "$N" of the replacement is group N (Spec/Template.v,
+   Proofs/Rewrite.v, Proofs/RewriteFixed.v) ----
+   [go_expand] models Go's regexp template expansion (from its documentation, checked
+   against observed outputs), [fo_expand] the XPath F&O 7.6.3 reading of the
+   replacement string, [rewrite_refs] the engine's rewriting (rewriteGroupRefs after the
+   repairs cfc1f2b, db5d0b2), [rewrite_refs_loop] the loop it replaced. *)
+From Coq Require Import String.
+From XP Require Import Base Eval.
+From XP.Spec Require Import Template.
+From XP.Proofs Require Import Rewrite RewriteFixed.
+
+(* the repaired rewriting followed by Go's expansion is the XPath reading, for every
+   replacement in which each "$" is followed by a digit *)
+Theorem C16_replace_template : forall nsub group r,
+  String.length (itoa nsub) <= 9 -> dollar_digit r = true ->
+  go_expand nsub group (rewrite_refs nsub r) = fo_expand nsub group r.
+Proof. intros nsub group r H1 H2. unfold rewrite_refs. apply rewrite_max9_fo; assumption. Qed.
+Print Assumptions C16_replace_template.
+
+(* the loop it replaced did not: the defect found by stating this theorem *)
+Theorem C16_pinned_rewrite_refuted :
+  ~ (forall nsub group r, simple_template r = true ->
+       go_expand nsub group (rewrite_refs_loop nsub r) = xpath_expand nsub group r).
+Proof. exact rewrite_correct_unrestricted_refuted. Qed.
+Print Assumptions C16_pinned_rewrite_refuted.
